@@ -72,6 +72,13 @@ CLAIMED = {
         technique="contract refinement + canonicalisation lemmas over the contracts, symbolic execution of the real AST + SMT",
         note=TRUST + "; composition over the number of elements by the induction rule",
     ),
+    "C09": dict(
+        category="other",
+        text="Each TimedStore operation (refresh, stop, stop_all_for_address, stop_all, the firing timer _expired) is proved over the event-loop model with a symbolic clock: refresh arms exactly one timer for now + ttl (none for 0xFFFFFF) and cancels the previous one, explicit removal cancels, a firing timer removes and reports exactly its entry once and immediately, nothing else changes, and the invariant 'every live timer belongs to a present entry holding that handle' is preserved (so a stale timer cannot remove a successor). The number of other entries in the store is bounded in shape, hence level other.",
+        design_ref="DESIGN.md 4/C09",
+        technique="per-operation postconditions + representation invariant by symbolic execution of the real AST over a shared event-loop model + SMT; bounded store shape",
+        note=TRUST + "; event-loop model contracts/looplib.py trusted (timers fire once, at their deadline, never if cancelled); defect D9 repaired by fix commit f08e646",
+    ),
 }
 
 NA_REASONS = {
